@@ -51,6 +51,9 @@ def generate(rng, tier):
     def body(r):
         if use_corpus and r.chance(50):
             return gen_rust.corpus_text(r, 2500)[1]
+        if r.chance(5):
+            # a macro arm whose body opts out with an inner attribute: the body is formatted as a text of its own
+            return MACSKIP + gen_rust.unformatted(r, 1)
         return gen_rust.unformatted(r, 1 + r.below(3))
 
     t = gen_tree.gen_crate(rng, base="c", max_files=rng.choice([1, 1, 2, 4]), feats={"modrs", "path"}, body=body)
@@ -100,6 +103,9 @@ def generate(rng, tier):
         "world": {"files": files}, "tree": t.to_json(), "sources": srcs, "variant": variant, "preformatted": pre, "roots": roots,
         "hashseed": rng.below(1 << 32), "stream_faults": rng.below(4), "abs": rng.chance(20), "linked": linked,
     }
+
+
+MACSKIP = "macro_rules! mskip {\n    () => {\n        #![rustfmt::skip]\n        fn  kept( ) { }\n    };\n}\n"
 
 
 def _apply_variant(b, var):
@@ -278,6 +284,8 @@ def execute(case):
         # legal partial writes on the files themselves (and EINTR): the emitter must still store the whole text
         file_plan = {0: None, 1: ["* write 0 * short 5,1,64"], 2: ["* write 1 * eintr 2"], 3: ["* write 0 * short 1"]}[sf]
         rf, df = run("files", rootargs, readonly=False)
+        if rf.exit == 0 and rf.stdout.strip():
+            v.add("C06:files-mode-prints-to-stdout", "plain rustfmt (files mode, no -l, no -v) printed %r" % core.text_of(rf.stdout)[:160])
         if rf.exit != 0:
             v.probe("files-mode-error")
             return v
